@@ -15,6 +15,12 @@ Proof.
   revert i j; induction l; intros [|i] [|j] H; simpl; auto; try congruence.
 Qed.
 
+Lemma nth_set_nth_other {A} (l : list A) i j x d : i <> j -> nth j (set_nth l i x) d = nth j l d.
+Proof. revert i j; induction l; intros [|i] [|j] H; simpl; auto; congruence. Qed.
+
+Lemma nth_set_nth_same {A} (l : list A) i x d : (i < length l)%nat -> nth i (set_nth l i x) d = x.
+Proof. revert i; induction l; intros [|i] H; simpl in *; try lia; auto. apply IHl. lia. Qed.
+
 Definition wfg (H W : nat) (g : list (list Z)) : Prop :=
   length g = H /\ Forall (fun r => length r = W) g.
 
